@@ -262,7 +262,7 @@ class Endpoint:
         self._seen(scope.get("path_params"))
 
 
-def run_router(iface, templates, path, root="", outer=None, earlier=False):
+def run_router(iface, templates, path, root="", outer=None, earlier=False, omit_path_key=False):
     """root: the mount point the server / an outer Subpaths already removed from the path (SCRIPT_NAME / root_path); routing is on `path` alone.
     earlier: the same router object has already served one request for this very path, whose endpoint consumed its parameter mapping"""
     eps = [Endpoint(i) for i in range(len(templates))]
@@ -278,7 +278,10 @@ def run_router(iface, templates, path, root="", outer=None, earlier=False):
     def once():
         if iface == "wsgi":
             calls = []
-            list(app({"REQUEST_METHOD": "GET", "PATH_INFO": path, "SCRIPT_NAME": root}, lambda s, h, e=None: calls.append(s)))
+            env = {"REQUEST_METHOD": "GET", "PATH_INFO": path, "SCRIPT_NAME": root}
+            if omit_path_key:  # PEP 3333: PATH_INFO "may be an empty string" and a variable that would be empty may be omitted
+                del env["PATH_INFO"]
+            list(app(env, lambda s, h, e=None: calls.append(s)))
             return calls[0] if calls else None
         sent = []
 
@@ -328,7 +331,7 @@ def job_route(job) -> report.JobResult:
 
     def fn():
         try:
-            status, eps = run_router(iface, templates, path, job.get("root", ""), job.get("outer"), job.get("earlier", False))
+            status, eps = run_router(iface, templates, path, job.get("root", ""), job.get("outer"), job.get("earlier", False), job.get("omit_path_key", False))
             err = None
         except ValueError as ex:  # conversion error: still decide what the spec says about this path
             status, eps, err = None, [], ex
@@ -381,7 +384,7 @@ def job_route(job) -> report.JobResult:
         if not (klass in ("param-text-wrong", "param-value-wrong") or "(z3 regex oracle)" in (detail or "")):
             e.last_sat = False  # class decided by forks, not by a final query: any model of the path condition is the witness
         m = e.witness()
-        wit = {"iface": iface, "routes": templates, "path": conc(path, m), "root": job.get("root", ""), "outer": job.get("outer"), "earlier": job.get("earlier", False)}
+        wit = {"iface": iface, "routes": templates, "path": conc(path, m), "root": job.get("root", ""), "outer": job.get("outer"), "earlier": job.get("earlier", False), "omit_path_key": job.get("omit_path_key", False)}
         with shims.off():
             cp = concrete_route(wit)
         if klass is not None:
@@ -473,7 +476,7 @@ def concrete_route(w) -> Optional[str]:
     try:
         templates, path = w["routes"], w["path"]
         try:
-            status, eps = run_router(w["iface"], templates, path, w.get("root", ""), w.get("outer"), w.get("earlier", False))
+            status, eps = run_router(w["iface"], templates, path, w.get("root", ""), w.get("outer"), w.get("earlier", False), w.get("omit_path_key", False))
         except Exception as ex:  # noqa: BLE001
             return f"exception {type(ex).__name__}: {ex}"
         exp = next((i for i, t in enumerate(templates) if py_route_match(t, path)), None)
@@ -748,6 +751,10 @@ def job_conv(job) -> report.JobResult:
                         if not z3.eq(term_of(a), term_of(b)) and e.check(term_of(a) != term_of(b)):
                             raise Fail("round-trip-changes-value", f"character {i}")
                 elif what == "decimal":
+                    ref = DecModel(text)  # the value the text itself denotes, digit for digit
+                    K0 = max(len(ref.frac_items), len(val.frac_items))
+                    if e.check(val.value_scaled(K0) != ref.value_scaled(K0)):
+                        raise Fail("to_python-value-wrong", "the Decimal delivered is not the number the text denotes")
                     bi = _items_of(back.s if isinstance(back, _StrBox) else back)
                     # accepted again: D+(.D+)?  and equal in value
                     dots = [i for i, c in enumerate(bi) if not isinstance(c, SInt) and c == 46]
@@ -854,6 +861,9 @@ def jobs(tier: str):
         for tname in ("int-str-lit", "two-params", "any-lit"):
             for n in range(0, 4):
                 out.append(dict(name=f"route/{iface}/{tname}/second-request-for-the-path/n{n}", kind="route", iface=iface, table=tname, n=n, earlier=True, const_hash=True, weight=3 ** n))
+        if iface == "wsgi":  # the empty path given by OMITTING the PATH_INFO key: it is the empty path, not "/"
+            for tname in ("root", "two-params", "placeholder-before-literal"):
+                out.append(dict(name=f"route/wsgi/{tname}/no-PATH_INFO-key", kind="route", iface="wsgi", table=tname, n=0, omit_path_key=True, weight=2))
         out.append(dict(name=f"route/{iface}/decimal-then-str/s+5", kind="route", iface=iface, table="decimal-then-str", n=5, prefix_text="/s/", weight=600))
         out.append(dict(name=f"route/{iface}/decimal-int/q+5", kind="route", iface=iface, table="decimal-int", n=5, prefix_text="/q/", weight=600))
         out.append(dict(name=f"route/{iface}/decimal-date/d+10", kind="route", iface=iface, table="decimal-date", n=10, prefix_text="/d/", weight=5000))
